@@ -614,6 +614,7 @@ func c16Body(c *mc.Ctx) {
 		c.Skip("wrapper not applicable to an untyped nil")
 		return
 	}
+	c.Family(leaf.name)
 	c.Case(func() string {
 		// pointers print as addresses, which differ from run to run: keep the witness stable
 		return fmt.Sprintf("%s %s value#%d (%s) = %s", c16APIs[api], leaf.name, vi, c16Wrappers[w], c16Addr.ReplaceAllString(fmt.Sprintf("%+v", val.Interface()), "0x…"))
